@@ -331,14 +331,9 @@ func HookLockWait(mu *sync.RWMutex, write bool) {
 		return
 	}
 	t.Yield(SiteLockWait, nil)
-	// Calibration (LockCalib) has established whether the code that follows
-	// this hook really holds the lock at the yield points inside the
-	// critical section. If it does not (the locking was dropped or narrowed),
-	// blocking here would hide exactly the interleavings that the missing
-	// lock admits.
-	if (write && LockCalib.WriteSeen && !LockCalib.WriteHeld) || (!write && LockCalib.ReadSeen && !LockCalib.ReadHeld) {
-		return
-	}
+	// The hook is called by the registry mutex's own Lock/RLock (wrapper type
+	// in /repo, tag verif), i.e. exactly where the code takes the lock: code
+	// that stops taking it stops being blocked here.
 	for {
 		if probe(mu, write) {
 			return
@@ -368,7 +363,7 @@ func probe(mu *sync.RWMutex, write bool) bool {
 
 // isUnlockSite reports whether passing this site may have released the lock.
 func isUnlockSite(site string) bool {
-	return site == "compile.unlocked" || site == "register.unlocked"
+	return site == "lock.released"
 }
 
 // Run starts all tasks and schedules them until all are done, the run is
